@@ -106,6 +106,14 @@ func genWorkload(seed int64, nblocks int) []block {
 		if b < 4 {
 			n = 6
 		}
+		if b == 1 {
+			// a ladder of 14 distinct lock durations on one denom right at the start: its accumulation
+			// sum-tree (fan-out 10) has several nodes at every later export/import point
+			for i := 0; i < 14; i++ {
+				bl.Ops = append(bl.Ops, op{K: "lock", U: i % nUsers, D: 0, E: 1, A: int64(1000 + rng.Intn(100000)), B: int64(i)})
+				locks++
+			}
+		}
 		for i := 0; i < n; i++ {
 			o := op{U: rng.Intn(nUsers), V: rng.Intn(nUsers), D: rng.Intn(len(denoms)), E: rng.Intn(len(denoms)),
 				A: int64(1 + rng.Intn(1000000)), B: int64(1 + rng.Intn(1000)), C: int64(rng.Intn(1000))}
@@ -133,13 +141,13 @@ func genWorkload(seed int64, nblocks int) []block {
 			switch r := rng.Intn(100); {
 			case r < 6:
 				o.K = "send"
-			case r < 18:
+			case r < 24:
 				o.K = "lock"
 				locks++
-			case r < 23 && locks > 0:
+			case r < 27 && locks > 0:
 				o.K = "beginUnlock"
 				o.C = int64(1 + rng.Intn(locks+1))
-			case r < 29:
+			case r < 31:
 				o.K = "createBalancer"
 				pools = append(pools, poolT{false, o.D, o.E})
 			case r < 36:
@@ -338,8 +346,8 @@ func (n *node) msgOf(o op) sdk.Msg {
 	case "send":
 		return banktypes.NewMsgSend(u, v, sdk.NewCoins(sdk.NewCoin(d, osmomath.NewInt(o.A))))
 	case "lock":
-		d = denoms[1+o.D%2]
-		return lockuptypes.NewMsgLockTokens(u, time.Duration(1+o.B%3)*24*time.Hour, sdk.NewCoins(sdk.NewCoin(d, osmomath.NewInt(o.A))))
+		d = denoms[1+(o.D%4)/3] // mostly one denom: many distinct durations on it
+		return lockuptypes.NewMsgLockTokens(u, time.Duration(8+o.B%25)*time.Hour, sdk.NewCoins(sdk.NewCoin(d, osmomath.NewInt(o.A))))
 	case "beginUnlock":
 		return lockuptypes.NewMsgBeginUnlocking(u, uint64(o.C), nil)
 	case "createBalancer":
@@ -452,6 +460,20 @@ func (n *node) stats() map[string]int {
 	}
 	locks, _ := n.App.LockupKeeper.GetPeriodLocks(n.Ctx)
 	st["locks"] = len(locks)
+	dd := map[string]map[time.Duration]bool{}
+	for _, l := range locks {
+		for _, c := range l.Coins {
+			if dd[c.Denom] == nil {
+				dd[c.Denom] = map[time.Duration]bool{}
+			}
+			dd[c.Denom][l.Duration] = true
+		}
+	}
+	for _, m := range dd {
+		if len(m) > st["maxDistinctLockDurationsPerDenom"] {
+			st["maxDistinctLockDurationsPerDenom"] = len(m)
+		}
+	}
 	st["pools"] = int(n.App.PoolManagerKeeper.GetNextPoolId(n.Ctx)) - 1
 	st["clPositions"] = int(n.App.ConcentratedLiquidityKeeper.GetNextPositionId(n.Ctx)) - 1
 	st["factoryDenoms"] = len(n.tf)
